@@ -1616,7 +1616,8 @@ class Torrent():
         else:
             try:
                 metainfo_enc = bencode.decode(content)
-            except (bencode.DecodingError, ValueError):
+            except (bencode.DecodingError, ValueError, OverflowError):
+                # OverflowError: string length prefix exceeds sys.maxsize
                 raise error.BdecodeError()
             else:
                 if not isinstance(metainfo_enc, abc.Mapping):
@@ -1624,14 +1625,18 @@ class Torrent():
 
             # Extract 'pieces' from metainfo before decoding because it's the
             # only byte sequence that isn't supposed to be decoded to a string.
-            if (b'info' in metainfo_enc and
-                isinstance(metainfo_enc[b'info'], dict) and
-                b'pieces' in metainfo_enc[b'info']):
-                pieces = metainfo_enc[b'info'].pop(b'pieces')
-                metainfo = utils.decode_dict(metainfo_enc)
-                metainfo['info']['pieces'] = pieces
-            else:
-                metainfo = utils.decode_dict(metainfo_enc)
+            try:
+                if (b'info' in metainfo_enc and
+                    isinstance(metainfo_enc[b'info'], dict) and
+                    b'pieces' in metainfo_enc[b'info']):
+                    pieces = metainfo_enc[b'info'].pop(b'pieces')
+                    metainfo = utils.decode_dict(metainfo_enc)
+                    metainfo['info']['pieces'] = pieces
+                else:
+                    metainfo = utils.decode_dict(metainfo_enc)
+            except RecursionError:
+                # Lists/Dictionaries are nested too deeply
+                raise error.BdecodeError()
 
             # "info" must be a dictionary.  If validation is not wanted, it's OK
             # if it doesn't exist because the "metainfo" property will add it
